@@ -457,7 +457,7 @@ def seq_configs(b, cn, tier):
                 yield cfg
         return
     if cn == 'MsgSequencer':
-        for msg in ('A', 'Hi', 'abc'):
+        for msg in ('A', 'Hi', 'abc', 'Hello', 'py4hw!', 'seven77'):
             cfg = Cfg()
             cfg.width[('p', 'ready')] = 1
             cfg.width[('p', 'valid')] = 1
@@ -483,6 +483,14 @@ def co_simulate(facts, c, s, cfg, text, ports, names, ink, outk, depth, seed, b,
             for _ in range(cap if space ** depth <= 65536 else 600):
                 yield tuple(tuple(rnd.choice((0, 1, (1 << w) - 1, rnd.randrange(1 << w))) for w in ws) for _ in range(depth))
         seqs = gen()
+
+    def long_runs():
+        # long biased runs: state that needs many edges to reach (counters / indices wrapping, deep addresses)
+        for _ in range(16 if depth < 4 else 64):
+            bias = [rnd.choice((0.5, 0.9, 1.0)) for _ in ws]
+            yield tuple(tuple(((1 << w) - 1 if w == 1 else rnd.randrange(1 << w)) if rnd.random() < p_ else (0 if w == 1 else rnd.randrange(1 << w))
+                              for w, p_ in zip(ws, bias)) for _ in range(32))
+    seqs = itertools.chain(seqs, long_runs())
     nseq = 0
     clkname = 'clk'
     try:
@@ -599,7 +607,12 @@ def check_g(ctx, facts, tier, seed):
         except vlog.XValue as e:
             ctx.violation('C01.g', '%s:illegal' % name, 'the generated design is not a legal closed design: %s' % e, where)
             continue
-        missing = [n for n, w in list(ins.items()) + list(outs.items()) if vname.get(w.oid) not in vb.env]
+        if dut_top:
+            # stimulus wires of the spec that are not attached to any port of the block are not part of the design
+            attached = {po.attrs['wire'].oid for plist in ('inPorts', 'outPorts') for po in top.attrs.get(plist, [])}
+            for n in [n for n, w in ins.items() if w.oid not in attached]:
+                vname[ins[n].oid] = None
+        missing = [n for n, w in list(ins.items()) + list(outs.items()) if vname.get(w.oid, 0) is not None and vname.get(w.oid) not in vb.env]
         if missing:
             ctx.violation('C01.g', '%s:interface' % name, 'ports/nets of the design are missing from the generated text: %s' % missing[:4], where)
             continue
@@ -615,7 +628,7 @@ def check_g(ctx, facts, tier, seed):
                     for n, w in ins.items():
                         D.put(w, v[n])
                     D.settle()
-                    vb.set_inputs({vname[w.oid]: v[n] for n, w in ins.items()})
+                    vb.set_inputs({vname[w.oid]: v[n] for n, w in ins.items() if vname[w.oid] is not None})
                     if vb.xflag:
                         viol = dict(kind='the generated design is x / illegal for inputs the simulator defines: %s' % vb.xflag, inputs=v)
                         break
@@ -642,7 +655,7 @@ def check_g(ctx, facts, tier, seed):
                             for n, w in ins.items():
                                 D.put(w, v[n])
                             D.settle()
-                            vb.set_inputs({vname[w.oid]: v[n] for n, w in ins.items()})
+                            vb.set_inputs({vname[w.oid]: v[n] for n, w in ins.items() if vname[w.oid] is not None})
                         for n, w in outs.items():
                             if D.get(w) != vb.env[vname[w.oid]].v:
                                 viol = dict(kind='output differs in cycle %d (before the edge)' % t, inputs_so_far=list(hist), output=n,
